@@ -335,7 +335,7 @@ def edge_forms(P, R, rule='C20.TAB.2'):
     unit = P.need_fn('module_load_list').unit
     n = 0
 
-    def ident(f, e):
+    def ident(f, e, find=lambda x: x):
         """which module an expression denotes: the variable a vector hangs off, the variable whose ->name is taken,
         or the module looked up by a name variable"""
         if not isinstance(e, dict):
@@ -349,15 +349,35 @@ def edge_forms(P, R, rule='C20.TAB.2'):
                 ev = s.ev
                 val = ev.get('init') if ev['k'] == 'decl' else ev.get('rhs') if ev['k'] == 'store' and ev.get('op') == '=' else None
                 tgt = ev.get('var') if ev['k'] == 'decl' else (ev['lhs']['name'] if ev['k'] == 'store' and is_var(ev.get('lhs')) else None)
-                if tgt and isinstance(val, dict) and val.get('k') == 'callref' and any(is_var(y, nm) for a in val.get('args', []) for y in walk(a)):
+                if tgt and isinstance(val, dict) and val.get('k') == 'callref' and any(is_var(y) and find(y['name']) == find(nm) for a in val.get('args', []) for y in walk(a)):
                     return tgt
         return None
     for f in P.unit_fns(unit):
         aps = [s for s in f.calls('const_string_vector_append') if len(s.ev['args']) == 2 and any(on_path(s.ev['args'][0], fl) for fl in ('depends', 'rdepends'))]
         if not aps:
             continue
-        fw = [(ident(f, s.ev['args'][0]), ident(f, s.ev['args'][1]), s) for s in aps if on_path(s.ev['args'][0], 'depends')]
-        rv = [(ident(f, s.ev['args'][0]), ident(f, s.ev['args'][1]), s) for s in aps if on_path(s.ev['args'][0], 'rdepends')]
+        # variables that are plain copies of one another (a lookup folded back from a helper hands the module over
+        # through its return value) denote one module
+        parent = {}
+
+        def find(x):
+            while parent.get(x, x) != x:
+                x = parent[x]
+            return x
+        for t in f.sites():
+            ev = t.ev
+            tg = ev.get('var') if ev['k'] == 'decl' else (ev['lhs']['name'] if ev['k'] == 'store' and is_var(ev.get('lhs')) and ev.get('op') == '=' else None)
+            vl = ev.get('init') if ev['k'] == 'decl' else ev.get('rhs') if ev['k'] == 'store' else None
+            if tg and is_var(vl):
+                a, b = find(tg), find(vl['name'])
+                if a != b:
+                    parent[a] = b
+
+        def ident2(e):
+            x = ident(f, e, find)
+            return find(x) if x is not None else None
+        fw = [(ident2(s.ev['args'][0]), ident2(s.ev['args'][1]), s) for s in aps if on_path(s.ev['args'][0], 'depends')]
+        rv = [(ident2(s.ev['args'][0]), ident2(s.ev['args'][1]), s) for s in aps if on_path(s.ev['args'][0], 'rdepends')]
         variadic = any(p.get('t', '').startswith('const char') for p in f.param_info) and any(s.ev.get('callee') in ('__builtin_va_start', 'va_start', '__builtin_va_arg') or 'va_' in (s.ev.get('callee') or '') for s in f.calls())
         declares = variadic or f.name in ('module_depends', 'module_antidepends')
         if declares:
